@@ -120,9 +120,19 @@ func scanMetaOut(c *core.Ctx) []ob {
 					}
 					f := calleeFunc(info, v)
 					if f != nil && f.Pkg() != nil && strings.HasPrefix(f.Pkg().Path(), core.ModPath) && f.Name() != "Resize" && f.Name() != "El" && f.Name() != "Degree" && f.Name() != "Level" {
+						// a call that works in place on the output (the output is also one of its inputs) takes its
+						// metadata from the output itself: it does not define it
+						nOut := 0
 						for _, a := range v.Args {
 							if isOut(a) {
-								hit = true
+								nOut++
+							}
+						}
+						for _, a := range v.Args {
+							if isOut(a) {
+								if nOut == 1 {
+									hit = true
+								}
 							} else if mentionsVar(info, a, map[types.Object]bool{outP: true}) {
 								// the output handed over inside a container of ciphertexts / as an element view
 								if t := info.TypeOf(a); t != nil && (strings.Contains(t.String(), "Ciphertext") || strings.Contains(t.String(), "rlwe.Element[")) {
@@ -191,21 +201,29 @@ func scanMetaOut(c *core.Ctx) []ob {
 }
 
 func metaProps(key string) []string {
+	var ps []string
 	switch {
 	case strings.Contains(key, "schemes/bgv"):
-		return []string{"C05"}
+		ps = []string{"C05"}
 	case strings.Contains(key, "schemes/ckks"):
-		return []string{"C06"}
+		ps = []string{"C06"}
 	case strings.Contains(key, "lintrans"):
-		return []string{"C12"}
+		ps = []string{"C12"}
 	case strings.Contains(key, "polynomial"):
-		return []string{"C13"}
+		ps = []string{"C13"}
 	case strings.Contains(key, "core/rgsw"):
-		return []string{"C20"}
-	case strings.Contains(key, "inner_sum") || strings.Contains(key, "Automorphism") || strings.Contains(key, "Trace") || strings.Contains(key, "Replicate") || strings.Contains(key, "InnerSum") || strings.Contains(key, "Rotate"):
-		return []string{"C11", "C04"}
+		ps = []string{"C20"}
 	}
-	return []string{"C04"}
+	if strings.Contains(key, "inner_sum") || strings.Contains(key, "Automorphism") || strings.Contains(key, "Trace") || strings.Contains(key, "Replicate") || strings.Contains(key, "InnerSum") || strings.Contains(key, "Rotate") || strings.Contains(key, "Average") || strings.Contains(key, "InnerFunction") || strings.Contains(key, "Conjugate") {
+		ps = append(ps, "C11")
+		if len(ps) == 1 {
+			ps = append(ps, "C04")
+		}
+	}
+	if len(ps) == 0 {
+		return []string{"C04"}
+	}
+	return ps
 }
 
 func init() {
